@@ -9,6 +9,7 @@ checks = [c["property_id"] for c in json.load(open(os.path.join(VERIF, "MANIFEST
 env = dict(os.environ, VERIF_REPO=wt)
 for patch in [os.path.abspath(x) for x in sys.argv[2:]]:
     subprocess.run(["git", "-C", wt, "checkout", "-q", "--", "."], check=True)
+    subprocess.run(["git", "-C", wt, "clean", "-fdq", "-e", "target"], check=True)   # files a patch added
     r = subprocess.run(["git", "-C", wt, "apply", patch], capture_output=True, text=True)
     if r.returncode:
         print(patch, "DOES NOT APPLY", r.stderr[:200]); continue
@@ -23,3 +24,4 @@ for patch in [os.path.abspath(x) for x in sys.argv[2:]]:
             fired[c] = [l.strip()[:160] for l in p.stdout.splitlines() if l.strip().startswith("violation rule=")][:3] or ["exit %d %s" % (p.returncode, p.stderr[-200:])]
     print(patch, "->", json.dumps(fired, indent=0)[:900] if fired else "MISSED", flush=True)
     subprocess.run(["git", "-C", wt, "checkout", "-q", "--", "."], check=True)
+    subprocess.run(["git", "-C", wt, "clean", "-fdq", "-e", "target"], check=True)   # files a patch added
